@@ -7,6 +7,7 @@ import (
 	"hash/fnv"
 	"math/rand"
 	"os"
+	"strconv"
 	"sort"
 	"strings"
 	"sync/atomic"
@@ -210,6 +211,16 @@ func init() {
 		if traceOut == nil {
 			rep.infra("C13 lines need -out")
 			return
+		}
+		// VERIF_HIST_SAMPLE = k > 1: only every k-th history (by hash of the line and the seed) is executed and recorded;
+		// the model checker has still visited them all
+		if k, err := strconv.Atoi(os.Getenv("VERIF_HIST_SAMPLE")); err == nil && k > 1 {
+			if (hash64([]byte(line))+uint64(seedFromEnv()))%uint64(k) != 0 {
+				rep.mu.Lock()
+				rep.Skipped++
+				rep.mu.Unlock()
+				return
+			}
 		}
 		s, err := newSession(gl.Doc)
 		if err != nil {
